@@ -15,9 +15,7 @@ package java_identify
 
 // annotations among the modifiers of the enclosing class / interface body declaration
 //@ spec BodyDecl(m Node) Node := Parent(Parent(m))
-//@ spec IsAnnMod(b Node, j int) bool := Child(ChildN(b, "modifier", j), "classOrInterfaceModifier") != nil && IsKind(Kid(Child(ChildN(b, "modifier", j), "classOrInterfaceModifier"), 0), "AnnotationContext")
-//@ spec rec NAnn(b Node, n int) int := n <= 0 ? 0 : NAnn(b, n - 1) + (IsAnnMod(b, n - 1) ? 1 : 0)
-//@ spec MethodAnnotations(m Node) int := NAnn(BodyDecl(m), Count(BodyDecl(m), "modifier"))
+//@ spec MethodAnnotations(m Node) int := NAnnMods(BodyDecl(m), Count(BodyDecl(m), "modifier"))
 
 //@ method JavaIdentifierListener.EnterPackageDeclaration
 //@ modifies *currentNode
@@ -39,6 +37,8 @@ package java_identify
 //@ modifies isOverrideMethod
 //@ ensures currentMethod.Name == GetText(Child(ctx, "identifier")) && currentMethod.ReturnType == GetText(Child(ctx, "typeTypeOrVoid")) && !currentMethod.IsConstructor
 //@ ensures IsKind(BodyDecl(ctx), "ClassBodyDeclarationContext") ==> len(currentMethod.Annotations) == old(len(currentMethod.Annotations)) + MethodAnnotations(ctx)
+//@ loop 1 invariant currentMethod.Name == GetText(Child(ctx, "identifier")) && currentMethod.ReturnType == GetText(Child(ctx, "typeTypeOrVoid")) && !currentMethod.IsConstructor
+//@ loop 1 invariant len(currentMethod.Annotations) == old(len(currentMethod.Annotations)) + MethodAnnotations(ctx)
 
 // the end of a method declaration lists the entry exactly once
 //@ method JavaIdentifierListener.ExitMethodDeclaration
